@@ -29,7 +29,7 @@ def independent_equal(a, b):
     if type(a) is not type(b):
         return False
     ga, gb = a.groups, b.groups
-    if "page" in ga and ga["page"] is None or "page" in gb and gb["page"] is None:
+    if _placeholder_page(a) or _placeholder_page(b):
         return False
     if isinstance(a, CaseCitation):
         return (ga.get("volume"), ga.get("page")) == (gb.get("volume"), gb.get("page")) and a.corrected_reporter() == b.corrected_reporter() \
@@ -39,6 +39,16 @@ def independent_equal(a, b):
 
 def kind(c):
     return type(c).__name__
+
+
+def _placeholder_page(c):
+    """A known missing page, decided from the written text (a page of underscores), not from eyecite's own flag."""
+    if "page" not in c.groups:
+        return False
+    page = c.groups["page"]
+    if page is None:
+        return True
+    return bool(re.fullmatch(r"_+", page))
 
 
 def check_c06(res_obj, cits, out):
